@@ -247,6 +247,17 @@ theorem block_init_within_limit (b : Build) (c : Core) (opt : Nat) (fs : List Fi
           subst hc
           exact ⟨rfl, by simp; omega, rfl⟩
 
+/-- Estimate as an upper bound at the level of the whole single-threaded .xz decoder: on a fresh decoder, after
+    SEQ_BLOCK_INIT of the first Block (whatever its return code) the live bytes — lzma_internal, Stream coder, Index hash,
+    Block decoder and the complete filter chain — are at most `lzma_raw_decoder_memusage()` of the chain, which is what
+    `lzma_memusage()` reports and what was compared with the limit: nothing beyond the limit is ever live. -/
+theorem stream_decoder_alloc_le_estimate (b : Build) (hb : b.Ok) (c : Core) (opt : Nat) (fs : List Filter) (m k : Nat)
+    (c' : Core) (hchain : c.chain = []) (hblk : c.blockAlloc = false)
+    (hlive : c.heap.live = b.szInternal + b.szStreamDecoder + b.szIndexHash + opt)
+    (hm : rawDecoderMemusage b fs = some m) (h : blockInit b c opt fs = (.done k, c')) :
+    c'.heap.live ≤ m ∧ c'.memusage = m ∧ m ≤ c.memlimit :=
+  stream_decoder_first_block_le_estimate b hb c opt fs m k c' hchain hblk hlive hm h
+
 /-- Restartability of SEQ_BLOCK_INIT (any Block Header `hdr`, any script of `lzma_memlimit_set` calls): if the run
     that starts with a too small limit, gets LZMA_MEMLIMIT_ERROR (possibly several times) and has its limit raised by
     the application finally leaves the step with a code `k` other than LZMA_MEMLIMIT_ERROR, then a decoder in the same
